@@ -23,14 +23,19 @@ Theorem C27_never_drops_unacked :
       match q_lifespan (w_qos w) with Some ls => c_ts c + ls <= e_now e | None => False end.
 Proof. exact never_drops_unacked. Qed.
 
-(* ---- depth bound: a KEEP_LAST(depth >= 1) writer never holds more than depth ALIVE samples of
-        an instance in its history, for every run ---- *)
+(* ---- depth bound: a writer can only be created with a consistent QoS (is_consistent now rejects
+        KEEP_LAST(0), so depth >= 1; depth is a u32); such a writer never holds more than depth
+        ALIVE samples of an instance in its history, for every run ---- *)
+Theorem C27_created_writer_has_positive_depth :
+  forall q d, qos_consistent q = true -> q_hist q = KeepLast d -> 0 <= d -> 1 <= d.
+Proof. exact consistent_depth_positive. Qed.
+
 Theorem C27_depth_bound :
   forall keyed enabled q evs d h,
-    q_hist q = KeepLast d -> 1 <= d ->
+    qos_consistent q = true -> q_hist q = KeepLast d -> 0 <= d ->
     zlen (filter (fun c => (c_kind c =? K_ALIVE) && (c_h c =? h))
                  (w_changes (fst (run (init keyed enabled q) evs)))) <= d.
-Proof. exact depth_bound. Qed.
+Proof. exact depth_bound_created. Qed.
 
 (* the same for the samples the DCPS writer accounts per instance, with the other limits *)
 Theorem C27_depth_bound_instance_records :
@@ -40,18 +45,6 @@ Theorem C27_depth_bound_instance_records :
     opt_le (total_samples (w_insts w)) (nonneg_lim (q_max_samples q)) /\
     opt_le (zlen (w_insts w)) (nonneg_lim (q_max_instances q)).
 Proof. exact limits_after_trace. Qed.
-
-(* depth >= 1 is needed: KEEP_LAST(0) passes the QoS validation and is unbounded *)
-Theorem C27_depth_zero_unbounded_refuted :
-  exists keyed enabled q evs h,
-    q_hist q = KeepLast 0 /\ qos_consistent q = true /\
-    zlen (filter (fun c => (c_kind c =? K_ALIVE) && (c_h c =? h))
-                 (w_changes (fst (run (init keyed enabled q) evs)))) = 3.
-Proof.
-  exists true, true, (mkQos (KeepLast 0) true None None None None (Some 100000000) true),
-    [ev0 (OWrite 0 1 0); ev0 (OWrite 1 1 0); ev0 (OWrite 2 1 0)], 1.
-  vm_compute. repeat split.
-Qed.
 
 (* ---- such a write blocks ----
    A write is parked exactly when it would replace a sample that some matched reliable reader
@@ -169,9 +162,9 @@ Proof.
 Qed.
 
 Print Assumptions C27_never_drops_unacked.
+Print Assumptions C27_created_writer_has_positive_depth.
 Print Assumptions C27_depth_bound.
 Print Assumptions C27_depth_bound_instance_records.
-Print Assumptions C27_depth_zero_unbounded_refuted.
 Print Assumptions C27_write_parked_iff.
 Print Assumptions C27_parked_write_stores_nothing.
 Print Assumptions C27_timeout_at_expiration.
